@@ -110,6 +110,10 @@ class IfWriteHandler(AbstractWriteHandler):
             ), f"Invalid if-structure for if {m.if_id}"
 
             if v_after_if_branch is None:
+                if else_ends_on_common_vtx and else_edge is not None:
+                    # The if-branch did not arrive at the end label (it was left with a jump, because its content was already
+                    # written elsewhere), but the else edge leads there: that is where this block continues.
+                    return else_edge.target_vertex
                 return v_after_else_branch
             return v_after_if_branch
 
